@@ -136,7 +136,7 @@ class Examiner:
         before = base.snapshot(state)
         if getattr(self, "_hist_state", None) is not state:
             self._hist_state, self._hist = state, {}
-        hist = self._hist.setdefault(gp, [])
+        hist = self._hist.setdefault((gp, json.dumps(trail, sort_keys=True, default=str)), [])
         self.earlier = [list(h) for h in hist]      # searches of this goal made before, for the replay
         hist.append([ids(f) for f in fs])
         # searches of the *same sequent* made in other states of this process (a search may
@@ -433,7 +433,26 @@ def run_directed(ctx, ex):
             ctx.log("directed state %s could not be built: %s: %s" % (sc["name"], type(e).__name__, base.short(e)))
 
 
+def log_generator_search(state, goal_pos, facts):
+    """Hook for the searches made by the step generator of C13 (they too are part of the history
+    a later search may depend on)."""
+    try:
+        r = base.CURRENT_RUNNER
+        if r is None or r.state is not state:
+            return
+        th = state.get_proof_item(goal_pos).th
+        trail = [dict(t) for t in r.trail]
+        log = SEARCH_LOG.setdefault(th, [])
+        log.append({"where": (r.goal.ident(), json.dumps(trail, sort_keys=True, default=str), ids(goal_pos)),
+                    "entry": {"goal": r.goal.to_json(), "trail": trail, "goal_id": ids(goal_pos), "fact_ids": [ids(f) for f in facts]}})
+        if len(log) > 8:
+            del log[0]
+    except Exception:  # noqa
+        pass
+
+
 def streams(ctx, recorder):
+    base.SEARCH_HOOK = log_generator_search
     theories = base.THEORIES_QUICK if ctx.tier == "quick" else base.THEORIES_THOROUGH
     budget = {"logic_base": 9, "logic": 12, "function": 5, "list": 4, "hoare": 4, "nat": 4, "set": 4}
     run_directed(ctx, Examiner(ctx, ctx.rng("directed"), 0, recorder))
